@@ -567,6 +567,19 @@ def run(ctx):
                 for x in row["tuple"][1]["array"]:
                     names.add(x.get("str"))
     if rows < 26:
+        # the same map written as a function `first letter → &[table names]` (a `match` with one literal slice per arm): its literals
+        by_owner = {}
+        for a in prog.lit_arrays:
+            v = a["value"]
+            if "array" in v and v["array"] and all("str" in x for x in v["array"]):
+                by_owner.setdefault(a.get("owner"), []).append([x["str"] for x in v["array"]])
+        for owner, arrs in sorted(by_owner.items(), key=lambda kv: str(kv[0])):
+            f_ = prog.fns.get(owner) or {}
+            if len(arrs) >= 15 and "str" in (f_.get("output") or "") and "[" in (f_.get("output") or "") and (f_.get("inputs") or []) in (["&str"], ["char"]):
+                rows = max(rows, 26)
+                for arr in arrs:
+                    names.update(arr)
+    if rows < 26:
         r4.undecidable("letter-map", "the 26-row letter→tables literal was not found (rows %d)" % rows)
     else:
         missing = sorted(n for n in names if n not in dic)
